@@ -91,6 +91,10 @@ fn c01() {
             }
         }
     }
+    // two queues in one process: their writers share the process-global rate limiters
+    for script in ["io", "vo", "ii", "vv", "iv"] {
+        jobs.push(Job { harness: "c01_multi", cfg: json!({"queues": 2, "n": 2, "script": script, "pb": pb, "max_branches": 5000}) });
+    }
     // clock jumps: the k-th clock read lands past the flush deadline
     let jumps: Vec<u64> = (0..tier.pick(8, 16)).collect();
     for k in jumps {
